@@ -5,6 +5,7 @@ from .coo_utils import (
     em_update_matrix,
     coo_sum_duplicates,
     merge_all_sum_duplicates,
+    COO_MIN_SIZE,
 )
 from .base_cooccurrence_vectorizer import BaseCooccurrenceVectorizer
 import numpy as np
@@ -458,7 +459,9 @@ class MultiSetCooccurrenceVectorizer(BaseCooccurrenceVectorizer):
             coo_sizes = (self.coo_initial_bytes // 20) // np.sum(average_window)
             self._coo_sizes = np.array(coo_sizes * average_window, dtype=np.int64)
 
-        self._coo_sizes = np.divmod(self._coo_sizes, self.n_threads)[0]
+        self._coo_sizes = np.maximum(
+            np.divmod(self._coo_sizes, self.n_threads)[0], COO_MIN_SIZE
+        )
 
     def _em_cooccurrence_iteration(self, token_sequences, cooccurrence_matrix):
         # call the numba function to return the new matrix.data
